@@ -272,7 +272,8 @@ class ApplyMonitors:
             for i in range(n - 1):
                 try:
                     m = tr.steps[i].merge(tr.steps[i + 1])
-                except ValueError:
+                except Exception as e:  # noqa: BLE001
+                    self.on_merge_raised(tr.steps[i], tr.steps[i + 1], e)
                     m = None
                 if m is not None:
                     after = tr.docs[i + 2] if i + 2 < len(tr.docs) else tr.doc
